@@ -47,3 +47,13 @@ Theorem C03_subslot : forall p, wf p -> forall t f e,
   exists bs, Booked p (sschedule p) t f e bs.
 Proof. exact subslot_effort. Qed.
 Print Assumptions C03_subslot.
+
+(* ---- second granularity, teams (Model/SubSlotTeam.v): TBooked - for EVERY member exactly one entry in each booked
+   slot, all of the same length (xr == x: the members work the same seconds), no entry anywhere else, every booked
+   slot working time of every member, effort - 9/2500000 <= (sum of x) * best efficiency <= effort *)
+Require Import SP.Model.SubSlotTeam SP.Proofs.SubSlotTeamProofs SP.Proofs.SubSlotTeamEffort.
+Theorem C03_subslot_teams : forall p, twf p -> forall t d,
+  sleaf_dates (tschedule p) t = Some d -> tt_mile (ttask_of p t) = false ->
+  multi (tt_team (ttask_of p t)) = true -> NoDup (tt_team (ttask_of p t)) -> TBooked p (tschedule p) t.
+Proof. exact team_same_instants. Qed.
+Print Assumptions C03_subslot_teams.
